@@ -9,6 +9,7 @@ import (
 
 	"github.com/NVIDIA/KAI-scheduler/pkg/scheduler/api"
 	"github.com/NVIDIA/KAI-scheduler/pkg/scheduler/api/common_info"
+	"github.com/NVIDIA/KAI-scheduler/pkg/scheduler/api/pod_status"
 	"github.com/NVIDIA/KAI-scheduler/pkg/scheduler/api/podgroup_info"
 	"github.com/NVIDIA/KAI-scheduler/pkg/scheduler/api/queue_info"
 	"github.com/NVIDIA/KAI-scheduler/pkg/scheduler/framework"
@@ -214,14 +215,22 @@ func validVictimForMinAvailable(victimInfo *api.VictimInfo) bool {
 		numVictimTasksPerSubGroup[subGroupName]++
 	}
 
-	numCurrentlyRunningSubGroup := map[string]int32{}
-	for subGroupName := range numVictimTasksPerSubGroup {
-		numCurrentlyRunningSubGroup[subGroupName] = int32(victimInfo.Job.GetSubGroups()[subGroupName].GetNumActiveUsedTasks())
+	victimTasks := map[common_info.PodID]bool{}
+	for _, task := range victimInfo.Tasks {
+		victimTasks[task.UID] = true
 	}
 
-	for subGroupName, numVictims := range numVictimTasksPerSubGroup {
-		subGroupCurrentlyRunning := numCurrentlyRunningSubGroup[subGroupName]
-		if victimInfo.Job.GetSubGroups()[subGroupName].GetMinAvailable() > subGroupCurrentlyRunning-numVictims {
+	// pods that keep running: active pods that are neither victims of this scenario nor already terminating
+	// (e.g. evicted for another workload earlier in the same cycle)
+	for subGroupName := range numVictimTasksPerSubGroup {
+		subGroup := victimInfo.Job.GetSubGroups()[subGroupName]
+		numRemaining := int32(0)
+		for _, task := range subGroup.GetPodInfos() {
+			if pod_status.IsActiveAllocatedStatus(task.Status) && !victimTasks[task.UID] {
+				numRemaining++
+			}
+		}
+		if subGroup.GetMinAvailable() > numRemaining {
 			return false
 		}
 	}
